@@ -641,7 +641,11 @@ class Equiv1Macro(Macro):
         self.limit = None
     
     def eval(self, args, prevs):
+        if len(args) != 2 or len(prevs) != 1:
+            raise VeriTException("equiv1", "must have two literals and a single premise")
         pt = prevs[0]
+        if not (pt.prop.is_equals() and pt.prop.arg.get_type() == BoolType):
+            raise VeriTException("equiv1", "premise must be an equivalence")
         p1, p2 = pt.prop.args
         if Not(p1) == args[0] and p2 == args[1]:
             return Thm(Or(*args), pt.hyps)
